@@ -117,6 +117,36 @@ def dispatch_atom():
     return Num
 
 
+_FACTORY = []
+
+
+def factory_atom():
+    """The atom given as a FACTORY FUNCTION (as the DIP solvers do) that yields two atom classes and is interrupted
+    (BaseException, not Exception) on the unknown token."""
+    if _FACTORY:
+        return _FACTORY[0]
+    from scinumtools.solver import AtomBase
+
+    class IntAtom(AtomBase):
+        pass
+
+    class RealAtom(AtomBase):
+        pass
+
+    def make(text):
+        if not isinstance(text, str):
+            return RealAtom(text)
+        v = text.strip()
+        if v.lstrip("+-").isdigit():
+            return IntAtom(int(v))
+        try:
+            return RealAtom(float(v))
+        except ValueError:
+            raise A.HarnessInterrupt(v)
+    _FACTORY.append(make)
+    return make
+
+
 def real_solver(config, sym=False):
     from scinumtools.solver import ExpressionSolver, AtomBase
     from scinumtools.solver import operators as O
@@ -127,6 +157,8 @@ def real_solver(config, sym=False):
         return ExpressionSolver(atom)
     if config == "dispatch":
         return ExpressionSolver(atom if sym else dispatch_atom())
+    if config == "factory":
+        return ExpressionSolver(factory_atom())
     if config == "muldiv":
         return ExpressionSolver(atom, {"par": O.OperatorPar, "mul": O.OperatorMul, "truediv": O.OperatorTruediv})
     if config == "addgt":
@@ -320,13 +352,25 @@ def run(replay=None):
         open(os.path.join(wd, "SolverHistMC.tla"), "w").write(mc_module(cf, 2, 2, False, cf["alpha_q"]))
         r0 = C.run_tlc(wd, "SolverHistMC", MC_CFG.replace("%PYEQ%", pyeq()).format(emit=""), want_records=False)
         sens[name] = r0.violated or "none"
+    # the histories of the dispatch configuration once more with the atom given as a factory function that is interrupted by
+    # a BaseException on the unknown token (fresh-instance oracle only: the token-level spec has no notion of either)
+    njobs = len(jobs)
+    for j in range(njobs):
+        if jobs[j][0] == "dispatch":
+            jobs.append(("factory", jobs[j][1], []))
     # deeper random histories (no spec outcome: fresh-instance oracle only)
     for name, cf in CONFIGS.items():
         for p in random_plans(rnd, cf["alpha_t"] + ["b", "f1(", "f2(", ",", "-"], 2000 if t == "quick" else 20000, 6, 6):
             jobs.append((name, p, []))
     long_bad = "+".join(["1"] * 400) + "+*"            # several hundred tokens, rejected at the very end
     long_ok = "+".join(["2"] * 700)
-    _PRISTINE.update(pristine_table([("default", e) for e in EDGE + [long_bad, long_ok, "1+2"]]))
+    # accumulation: the same nested failure many times, then nested valid expressions
+    bad_nested = "((((foo))))+(((foo)))"
+    probes_nested = ["(1+2)*3", "((((1))))", "sin(((2)))*((3))", "pow((2),((3)))"]
+    _PRISTINE.update(pristine_table([("default", e) for e in EDGE + [long_bad, long_ok, "1+2", bad_nested] + probes_nested]))
+    for k in (6, 20, 60):
+        for pr in probes_nested:
+            jobs.append(("default", [bad_nested] * k + [pr], []))
     for plan in ([long_bad, long_ok], [long_ok, long_ok, "1+2"], [long_bad, long_bad, long_ok, "1+2"], [long_bad, "1+2"]):
         jobs.append(("default", plan, []))
     for _ in range(600 if t == "quick" else 6000):
